@@ -106,6 +106,8 @@ structure Cand where
   impliesMaxPrevotes : Bool := false
   ac : AC
   sigLen : Nat
+  /-- length of the header's `stateRoot` (`BlockHeader.Validate` requires 32 since fix 4d58fae) -/
+  stateRootLen : Nat := 32
   /-- fact: the header signature verifies under the generator key of the generator assigned to the
   block's slot, over tag ‖ chainID ‖ signing bytes -/
   sigOK : Bool
@@ -138,7 +140,7 @@ deriving Repr, DecidableEq
 
 inductive Err where
   -- Block.Validate
-  | vPrevLen | vGenLen | vSigLen | txStatic | txRoot | assetsOrder | assetsDup | assetRoot
+  | vPrevLen | vGenLen | vSigLen | vStateRootLen | txStatic | txRoot | assetsOrder | assetsDup | assetRoot
   -- verifyBlock
   | version | height | prevID | payloadSize | future | pastSlot | generatorKeys | generator | mhp
   | contradicting | acEmpty | acLow | acHigh | acNextParams | acHeader | acParams | acSignature
@@ -150,6 +152,7 @@ deriving Repr, DecidableEq
 
 def Err.name : Err → String
   | .vPrevLen => "v-prev-len" | .vGenLen => "v-gen-len" | .vSigLen => "v-sig-len"
+  | .vStateRootLen => "v-state-root-len"
   | .txStatic => "tx-static" | .txRoot => "tx-root" | .assetsOrder => "assets-order"
   | .assetsDup => "assets-dup" | .assetRoot => "asset-root"
   | .version => "version" | .height => "height" | .prevID => "prev-id" | .payloadSize => "payload-size"
@@ -193,6 +196,7 @@ def validate (b : Cand) : Option Err :=
   if b.prevID.length ≠ 32 then some .vPrevLen
   else if b.gen.length ≠ 20 then some .vGenLen
   else if b.sigLen ≠ 64 then some .vSigLen
+  else if b.stateRootLen ≠ 32 then some .vStateRootLen
   else match validateTxs b.txStatic with
     | some e => some e
     | none =>
@@ -392,7 +396,8 @@ def firstFailure : List (Err × Bool) → Option Err
 def validateChecks (b : Cand) : List (Err × Bool) :=
   [ (.vPrevLen, decide (b.prevID.length = 32)),
     (.vGenLen, decide (b.gen.length = 20)),
-    (.vSigLen, decide (b.sigLen = 64)) ] ++
+    (.vSigLen, decide (b.sigLen = 64)),
+    (.vStateRootLen, decide (b.stateRootLen = 32)) ] ++
   b.txStatic.map (fun v => (Err.txStatic, v)) ++
   [ (.txRoot, b.txRootOK),
     (.assetsOrder, decide (b.assets ≠ .unsorted)),
